@@ -504,7 +504,13 @@ class Interp:
                     self.unspec("int() of number-like text")
                 raise Fail("int() of unparsable text")
             if v[0] == "f":
-                self.unspec("int(float)")
+                # the reference is silent on rounding; the project's own types_test.ucg says "You can cast a float into an
+                # int (truncates)": towards zero, for finite values an i64 can hold (anything else stays unspecified)
+                f = v[1]
+                if f == f and abs(f) < 9.2e18:
+                    import math
+                    return ("i", int(math.trunc(f)))
+                self.unspec("int(float) out of range")
             if v[0] == "b":
                 raise Fail("int(bool)")
             raise Fail("int(null)")
